@@ -1,6 +1,7 @@
 import GomlVerif.Model.Resolve
 import GomlVerif.Driver.Common
-/-! driver for C05: input `(fns (fn (params (x tag)…) body)…)`, output canonical use→binder map -/
+/-! driver for C05: input `(fns (file (ctors x…) (defs y…) (fn ((x tag)…) body)…)…)`, output
+    `spec_eq con_ok scoped fresh <use→binder map of the implementation model> <… of the specification>` -/
 namespace Goml.Driver.C05
 open Goml Goml.Resolve
 
@@ -16,6 +17,8 @@ def decParam : Sexp → Option (String × Nat)
 mutual
 partial def decExpr : Sexp → Option Expr
   | .list [.atom "v", .atom x, t] => do pure (.var x (← t.nat?))
+  | .list (.atom "k" :: .atom x :: t :: args) => do
+      pure (.con x (← t.nat?) (← optMapM decExpr args))
   | .list (.atom "n" :: es) => do pure (.node (← optMapM decExpr es))
   | .list (.atom "b" :: items) => do pure (.block (← optMapM decItem items))
   | .list (.atom "m" :: scrut :: arms) => do
@@ -35,38 +38,59 @@ def decFn : Sexp → Option (List (String × Nat) × Expr)
   | .list [.atom "fn", .list ps, body] => do pure (← optMapM decParam ps, ← decExpr body)
   | _ => none
 
-/-- id → tag table from bind events, then `use tag → binder tag | none`, in event order -/
-def canon (evs : List Ev) : List (Nat × Option Nat) :=
+/-- id → tag table from bind events, then `use tag → binder tag | C | G | -`, in event order -/
+def canon (evs : List Ev) : List (Nat × String) :=
   let binds := evs.filterMap fun | .bind id tag => some (id, tag) | _ => none
   evs.filterMap fun
-    | .use tag (some id) => some (tag, (binds.find? (·.1 == id)).map (·.2))
-    | .use tag none => some (tag, none)
+    | .use tag (.loc id) => some (tag, match binds.find? (·.1 == id) with
+        | some b => toString b.2
+        | none => "?")
+    | .use tag .ctor => some (tag, "C")
+    | .use tag .defn => some (tag, "G")
+    | .use tag .unbound => some (tag, "-")
     | _ => none
 
-def render (m : List (Nat × Option Nat)) : String :=
-  " ".intercalate (m.map fun (t, r) => match r with
-    | some b => s!"{t}>{b}"
-    | none => s!"{t}>-")
+def render (m : List (Nat × String)) : String :=
+  " ".intercalate (m.map fun (t, r) => s!"{t}>{r}")
 
 def names (ps : List (String × Nat)) : List String := ps.map (·.1)
+
+def atoms (l : List Sexp) : List String :=
+  l.filterMap fun | .atom x => some x | _ => none
+
+structure FileIn where
+  G : Globals
+  fns : List (List (String × Nat) × Expr)
+
+def decFile : Sexp → Option FileIn
+  | .list (.atom "file" :: .list (.atom "ctors" :: cs) :: .list (.atom "defs" :: ds) :: fs) => do
+      pure { G := { ctors := atoms cs, defs := atoms ds }, fns := ← optMapM decFn fs }
+  | _ => none
 
 def runLine (l : String) : String :=
   let (id, rest) := splitTab l
   match Sexp.parse rest with
-  | some (.list (.atom "fns" :: .list (.atom "globals" :: gs) :: fs)) =>
-    let globals := gs.filterMap Sexp.str?
-    match optMapM decFn fs with
-    | some fns =>
-      let outs := fns.map fun (ps, body) =>
-        let impl := (resolveFn ps body).out
-        let spec := (specFn ps body).evs
-        -- global items behave as an outermost scope: a local binder of the same name shadows them
-        let isSc := scopedExpr (globals ++ names ps) body
-        (canon impl, canon spec, isSc)
-      let implS := render (outs.flatMap fun (i, _, _) => i)
-      let specOk := outs.all fun (i, s, _) => i == s
-      let allSc := outs.all fun (_, _, sc) => sc
-      s!"{id}\tspec_eq={specOk}\tscoped={allSc}\t{implS}"
+  | some (.list (.atom "fns" :: files)) =>
+    match optMapM decFile files with
+    | some fs =>
+      let outs := fs.flatMap fun f => f.fns.map fun (ps, body) =>
+        let impl := (resolveFn f.G ps body).out
+        let spec := (specFn f.G ps body).evs
+        -- lowering called no locally bound name a constructor (hypothesis of `resolve_refines_spec`)
+        let conOk := conOkExpr f.G (names ps) body
+        -- package-level names are the outermost scope: a local binder of the same name shadows them
+        let isSc := scopedExpr (f.G.ctors ++ f.G.defs ++ names ps) body
+        let ids := bindIds impl
+        let fresh := ids == List.range ids.length
+        (canon impl, canon spec, conOk, isSc, fresh)
+      let implS := render (outs.flatMap fun (i, _, _, _, _) => i)
+      let specS := render (outs.flatMap fun (_, s, _, _, _) => s)
+      let allCon := outs.all fun (_, _, c, _, _) => c
+      -- `resolve_refines_spec`: under `conOk` the two outputs are equal
+      let specOk := outs.all fun (i, s, c, _, _) => !c || i == s
+      let allSc := outs.all fun (_, _, _, sc, _) => sc
+      let allFresh := outs.all fun (_, _, _, _, f) => f
+      s!"{id}\tspec_eq={specOk}\tcon_ok={allCon}\tscoped={allSc}\tfresh={allFresh}\t{implS}\t{specS}"
     | none => s!"{id}\tdecode-error"
   | _ => s!"{id}\tparse-error"
 
